@@ -50,6 +50,9 @@ pub enum Kind {
     /// `Vec<NoClone>::con_iter()`: elements that are not `Clone`; the iterator is cloned through
     /// a shared reference with plain method-call syntax (C19)
     SliceNoClone,
+    /// a concurrent iterator built over `base.values()` of ANOTHER concurrent iterator (over a
+    /// slice) that is pulled directly at the same time (`Op::BasePull`): C11 only, not in `ALL`
+    NestedValues,
 }
 
 impl Kind {
@@ -87,7 +90,10 @@ impl Kind {
         )
     }
     pub fn known_size(self) -> bool {
-        !self.is_iter()
+        !self.is_iter() && !self.is_nested()
+    }
+    pub fn is_nested(self) -> bool {
+        self == Kind::NestedValues
     }
     pub fn consuming(self) -> bool {
         matches!(
@@ -118,6 +124,7 @@ impl Kind {
                 | Kind::PlainIter
                 | Kind::StampSlice
                 | Kind::SliceNoClone
+                | Kind::NestedValues
         )
     }
     pub fn is_adaptor(self) -> bool {
@@ -192,6 +199,8 @@ pub enum Op {
     UseFresh,
     /// C19: back to the original iterator (the thread's private iterator is dropped)
     UseOriginal,
+    /// `Kind::NestedValues`: one element is pulled directly from the base iterator
+    BasePull,
 }
 
 #[derive(Clone, Copy, Debug, PartialEq, Eq, Serialize, Deserialize)]
@@ -280,6 +289,8 @@ pub enum CallKind {
     DropIter,
     CloneIter,
     FreshIter,
+    /// `Kind::NestedValues`: a pull on the base iterator, behind the outer iterator's back
+    BasePull,
 }
 
 impl CallKind {
@@ -929,6 +940,16 @@ where
             Op::UseClone | Op::UseFresh | Op::UseOriginal => {
                 // handled by run_ops_multi, which splits the list at these markers
             }
+            Op::BasePull => {
+                if let Some(b) = base_handle() {
+                    call(ctx, tid, CallKind::BasePull, 1, || match b.pull() {
+                        Some(o) => Res::Item { idx: None, obs: o },
+                        // the base is exhausted: nothing was delivered; not an end report of
+                        // the outer iterator
+                        None => Res::Unit,
+                    });
+                }
+            }
             Op::Drain(m, extra) => {
                 let mut after_end = 0u32;
                 let mut guard = 0usize;
@@ -1103,6 +1124,35 @@ struct DriveOut {
     seq_items: Option<Vec<ItemObs>>,
     terminal_panic: Option<String>,
     sim: SimOutcome,
+}
+
+/// Type-erased access to the base iterator of `Kind::NestedValues` for `Op::BasePull`; set for
+/// the duration of one run by `execute`.
+#[derive(Clone, Copy)]
+pub struct BaseHandle {
+    ptr: *const (),
+    next: unsafe fn(*const ()) -> Option<ItemObs>,
+}
+
+unsafe impl Send for BaseHandle {}
+unsafe impl Sync for BaseHandle {}
+
+impl BaseHandle {
+    fn pull(&self) -> Option<ItemObs> {
+        // SAFETY: the pointee outlives the run (cleared by `execute` before it is dropped)
+        unsafe { (self.next)(self.ptr) }
+    }
+}
+
+static BASE: Mutex<Option<BaseHandle>> = Mutex::new(None);
+
+fn base_handle() -> Option<BaseHandle> {
+    *BASE.lock().unwrap_or_else(|e| e.into_inner())
+}
+
+unsafe fn base_next_of_slice(p: *const ()) -> Option<ItemObs> {
+    let it = &*(p as *const orx_concurrent_iter::ConIterOfSlice<'static, Elem>);
+    it.next().map(|x| x.obs())
 }
 
 fn drive<C>(cfg: &RunCfg, it: C) -> DriveOut
@@ -1656,6 +1706,21 @@ pub fn execute(cfg: &RunCfg, run_no: u32) -> RunRecord {
             });
             o
         }
+        Kind::NestedValues => {
+            let data = mk_vec();
+            rec.base_addr = data.as_ptr() as usize;
+            rec.elem_size = std::mem::size_of::<Elem>();
+            let base = data.as_slice().into_con_iter();
+            *BASE.lock().unwrap_or_else(|e| e.into_inner()) = Some(BaseHandle {
+                ptr: &base as *const _ as *const (),
+                next: base_next_of_slice,
+            });
+            let o = drive(cfg, base.values().into_con_iter());
+            *BASE.lock().unwrap_or_else(|e| e.into_inner()) = None;
+            drop(base);
+            check_source(&mut rec, &data, seed);
+            o
+        }
         Kind::PlainIter => {
             let data = mk_plain();
             rec.base_addr = data.as_ptr() as usize;
@@ -1679,6 +1744,12 @@ pub fn execute(cfg: &RunCfg, run_no: u32) -> RunRecord {
 }
 
 impl RunCfg {
+    /// The iterator under test knows its length: a known-size kind, or a wrapped iterator (probe)
+    /// with an exact size hint.
+    pub fn sized(&self) -> bool {
+        self.kind.known_size() || (self.kind.is_iter() && self.hint == Hint::Exact)
+    }
+
     /// The wrapped iterator announces fewer elements than it yields: the crate cannot know the
     /// length, so chunk sizes (clamped to the announced length) and length queries are not held
     /// against the model; exactly-once, indices, the end report and its permanence still are.
